@@ -67,7 +67,7 @@ class Spec:
             xs = self._split(x, [p["ishape"] for p in d["parts"]], d["iaxis"])
             return self._cat([self.apply(p, xi) for p, xi in zip(d["parts"], xs)],
                              d["oaxis"])
-        return self.leaf(d)(x)
+        return self.leaf(d).apply(np.asarray(x))
 
     # ---- adjoint -------------------------------------------------------
     def adjoint(self, d, y):
@@ -99,7 +99,7 @@ class Spec:
             ys = self._split(y, [p["oshape"] for p in d["parts"]], d["oaxis"])
             return self._cat([self.adjoint(p, yi) for p, yi in zip(d["parts"], ys)],
                              d["iaxis"])
-        return self.leaf(d).H(y)
+        return self.leaf(d).H.apply(np.asarray(y))
 
     @staticmethod
     def _split(x, shapes, axis):
@@ -128,7 +128,7 @@ class Spec:
             p = rng.standard_normal(shp) + 1j * rng.standard_normal(shp)
             npn = _n(p)
             try:
-                g = 3.0 * _n(op(p)) / npn if npn > 0 else 1.0
+                g = 3.0 * _n(op.apply(np.asarray(p))) / npn if npn > 0 else 1.0
             except Exception:
                 g = 1.0
             self.gains[k] = max(g, 0.0)
@@ -188,6 +188,6 @@ class Spec:
             tot = sum(ys)
             return tot, nt + EPS * sum(_n(y) for y in ys)
         L = self.leaf(d)
-        y = (L.H if adjoint else L)(x)
+        y = (L.H if adjoint else L).apply(np.asarray(x))
         return y, self._gain(d, adjoint) * nx + 4 * EPS * (_n(y) + _n(x) * self._gain(
             d, adjoint) / 3.0)
